@@ -470,7 +470,7 @@ def check_wavevector(run, pkg, ndim):
                 try:
                     arg = tr.tr(sq[0][2][0])
                     same_poly = sp.expand(arg - sum(s_[k] ** 2 for k in range(ndim))) == 0
-                    form = inner[0] == "sub" and inner[2] == C(0) and inner[1][0] == "call" and inner[1][1] == "math.modf"
+                    form = ((inner[0] == "sub" and inner[2] == C(0)) or (inner[0] == "elem" and inner[2] == 0)) and inner[1][0] == "call" and inner[1][1] == "math.modf"
                     # the radicand is a polynomial in the loop variables only: compared exactly
                     okg = (True if (same_poly and used == set(lvs) and form) else (False if (not tr.atoms and not same_poly and form) else None))
                 except Exception:
